@@ -107,7 +107,10 @@ RULE = (
     "bytes..64 KiB whose handler answers after reading 0/1/100/1000 body bytes, with the client-to-server direction cut into "
     "several segments so that the rest of the body arrives in further reads after the response was written; ~8% (HTTP/1.1) "
     "send one or two bodies with an 'Expect: 100-continue' field line spelled by the caller (name and token in several "
-    "letter cases) instead of expect100=True; batch "
+    "letter cases) instead of expect100=True; ~10% answer one or two exchanges with a response that announces "
+    "Content-Length N (StreamResponse.content_length, or a Content-Length field beside an async-generator / file-like "
+    "Payload body) and whose producer yields N bytes (N reached at the end of a write, or crossed inside one) plus one to "
+    "three further pieces; batch "
     "'reset' adds one reset/EOF at a byte offset or loop step. Non-trivial: >=2 exchanges completed and at least one "
     "connection was reused or closed by a decision of either end. Distinct = interleaving signature."
 )
@@ -436,6 +439,8 @@ def gen(rng, tier, index):
         add_early_answer(rng, scn)
     if rng.random() < P_EXPECT_SPELLED:
         add_expect_spelled(rng, scn)
+    if rng.random() < P_OVERRUN:
+        add_overrun(rng, scn)
     return scn
 
 
@@ -713,6 +718,74 @@ def asks_continue(rq):
     return bool(rq["expect100"]) or any(n.lower() == "expect" and v.strip().lower() == "100-continue" for n, v in rq["headers"])
 
 
+# ---- extension 7: a response whose producer yields more bytes than the Content-Length it declared
+P_OVERRUN = 0.10
+OVERRUN_KINDS = ["stream", "stream", "stream", "agen", "agen", "rawio"]
+OVERRUN_SIZES = [0, 0, 1, 5, 17, 300, 2047, 2048, 2049]
+SURPLUS_SIZES = [1, 1, 2, 6, 17, 300, 2049]
+SURPLUS_FLAVOURS = ["bytes", "bytes", "text", "crlf", "response"]
+_SURPLUS_BLOCKS = {"text": b"surplus ", "crlf": b"\r\nX-Surplus: 1\r\n\r\n",
+                   "response": b"HTTP/1.1 200 OK\r\nContent-Length: 2\r\nX-Surplus: 1\r\n\r\nhi"}
+
+
+def add_overrun(rng, scn):
+    """One or two exchanges are answered by a response that announces a Content-Length of N (StreamResponse with
+    content_length=N, or web.Response with a Content-Length field and an async-generator / file-like Payload body) and
+    whose producer goes on after N bytes: N is reached at the end of one write (or crossed inside one) and one to three
+    further pieces follow.  The message the handler returned is the announced one - head, N body bytes -, so the caller
+    must read exactly the first N bytes and nothing else may appear on the connection (the writer drops the surplus)."""
+    heavy = _scn_biggest(scn) >= 65535  # (the segmentation/buffer knobs of the run were chosen for its largest body)
+    for i in _ext_targets(rng, scn):
+        ex = scn["exchanges"][i]
+        rq, rs = ex["req"], ex["resp"]
+        if rq["method"].upper() == "HEAD":
+            rq["method"] = "GET" if rq["body"]["kind"] == "none" else "POST"
+        if rs["status"] in (204, 304):
+            rs["status"] = 200   # (a body-less status has no body length to announce)
+        kind = rng.choice(OVERRUN_KINDS)
+        size = rng.choice(OVERRUN_SIZES + (SIZES_BIG if heavy else []))
+        b = {"kind": kind, "k": rng.randrange(251), "size": size}
+        if kind in ("stream", "agen"):
+            b["pieces"] = gen_pieces(rng, size)
+            b["delay"] = rng.choice([0, 0, 0, 1, 3])
+        if kind == "stream":
+            b["declare_len"] = True
+            b["explicit_eof"] = rng.random() < 0.5
+            b["eof_data"] = rng.random() < 0.2
+        if kind == "rawio":
+            b["caps"] = list(rng.choice([[1], [7], [100], [1000, 1], [2048], [2049, 2047]] if size <= 300 else
+                                        [[100], [1000, 1], [1024, 3900, 4], [2048], [2049, 2047], [65535]]))
+            b["wrap"] = rng.choice(RAWIO_WRAP)
+        b["surplus"] = [rng.choice(SURPLUS_SIZES) for _ in range(rng.choice([1, 2, 2, 3]))]
+        b["surplus_joined"] = rng.random() < 0.3   # the write that reaches N also carries the first surplus piece
+        b["surplus_flavour"] = rng.choice(SURPLUS_FLAVOURS)
+        rs["body"] = b
+        rs["chunked"] = False
+        rs["compress"] = None   # (a content-coding replaces the announced length by the coded body's own framing)
+        if rng.random() < 0.5:
+            ex["gap_ms"] = rng.choice([0, 0, 1, 5])   # the next request follows while the connection is still warm
+
+
+def surplus_bytes(body):
+    """what the producer yields after the announced body (b'' without extension 7)"""
+    n = sum(body.get("surplus") or [])
+    if not n:
+        return b""
+    blk = _SURPLUS_BLOCKS.get(body.get("surplus_flavour"))
+    if blk is None:
+        return bbytes((body["k"] + 101) % 251, n)
+    return (blk * (n // len(blk) + 1))[:n]
+
+
+def producer_pieces(body, data):
+    """the pieces a stream/agen producer yields: the announced body in its pieces, then the surplus in its pieces"""
+    pieces = split_pieces(data, body.get("pieces") or [len(data)])
+    extra = split_pieces(surplus_bytes(body), body.get("surplus") or [])
+    if extra and body.get("surplus_joined") and pieces:
+        pieces[-1] = pieces[-1] + extra.pop(0)
+    return pieces + extra
+
+
 def chunked_complete(data):
     """does this byte string hold a complete chunked body (RFC 9112 7.1: chunks, last-chunk, trailer section, CRLF)?"""
     pos, n = 0, len(data)
@@ -913,6 +986,19 @@ def shrink(scn):
                     yield _with_ex(scn, i, dict(ex, **{side: dict(spec, body=dict(b, caps=[1 << 20]))}))
                     if len(b["caps"]) > 1:
                         yield _with_ex(scn, i, dict(ex, **{side: dict(spec, body=dict(b, caps=b["caps"][:1]))}))
+            if side == "resp" and b.get("surplus"):
+                # the same response without its surplus, then the plainest surplus: one piece of one ordinary byte
+                yield _with_ex(scn, i, dict(ex, resp=dict(spec, body={k: v for k, v in b.items() if not k.startswith("surplus")})))
+                if b["surplus"] != [1]:
+                    yield _with_ex(scn, i, dict(ex, resp=dict(spec, body=dict(b, surplus=[1]))))
+                    if len(b["surplus"]) > 1:
+                        yield _with_ex(scn, i, dict(ex, resp=dict(spec, body=dict(b, surplus=b["surplus"][:1]))))
+                if b.get("surplus_joined"):
+                    yield _with_ex(scn, i, dict(ex, resp=dict(spec, body=dict(b, surplus_joined=False))))
+                if b.get("surplus_flavour") != "text":
+                    yield _with_ex(scn, i, dict(ex, resp=dict(spec, body=dict(b, surplus_flavour="text"))))
+                if b["kind"] == "stream" and (b.get("eof_data") or not b.get("explicit_eof")):
+                    yield _with_ex(scn, i, dict(ex, resp=dict(spec, body=dict(b, eof_data=False, explicit_eof=True))))
             if b["kind"] == "file" and b.get("chunk_size") != 262144:
                 yield _with_ex(scn, i, dict(ex, **{side: dict(spec, body=dict(b, chunk_size=262144))}))
         if rs["body"]["kind"] == "file":
@@ -1477,8 +1563,11 @@ def run(scn, ch, log=False):
             if rs["conn_hdr"] == "close" or (rs["conn_hdr"] == "keep-alive" and request.keep_alive and not rs["force_close"]):
                 hdrs_.append(("Connection", rs["conn_hdr"]))
                 rec["conn_hdr"] = rs["conn_hdr"]
-            kw = {"status": rs["status"], "reason": rs["reason"], "headers": hdrs_}
             data = resp_body_bytes(b)
+            if b.get("surplus") and kind != "stream":
+                # extension 7: the handler announces the length itself; the Payload it passes yields more than that
+                hdrs_.append(("Content-Length", str(len(data))))
+            kw = {"status": rs["status"], "reason": rs["reason"], "headers": hdrs_}
             if kind == "stream":
                 resp = web.StreamResponse(**kw)
                 if b["declare_len"]:
@@ -1494,9 +1583,9 @@ def run(scn, ch, log=False):
             elif kind == "bio":
                 resp = web.Response(body=io.BytesIO(data), **kw)
             elif kind == "rawio":
-                resp = web.Response(body=make_rawio(b, data, count_short_read), **kw)
+                resp = web.Response(body=make_rawio(b, data + surplus_bytes(b), count_short_read), **kw)
             elif kind == "agen":
-                resp = web.Response(body=agen_pieces(split_pieces(data, b["pieces"]), b["delay"]), **kw)
+                resp = web.Response(body=agen_pieces(producer_pieces(b, data), b["delay"]), **kw)
             elif kind == "str_payload":
                 resp = web.Response(body=aio_payload.StringPayload(btext(b["k"], b["size"])), **kw)
             elif kind == "file":
@@ -1516,9 +1605,12 @@ def run(scn, ch, log=False):
             if rs["force_close"]:
                 resp.force_close()
             rec["resp_obj"] = resp
+            if b.get("surplus"):
+                rec["overrun"] = True
+                loop.note("overrun", f"ex{i}:{kind}:{len(data)}+{sum(b['surplus'])}")
             if kind == "stream":
                 await resp.prepare(request)
-                pieces = split_pieces(data, b["pieces"])
+                pieces = producer_pieces(b, data)
                 last = b""
                 if b["eof_data"] and b["explicit_eof"] and pieces:
                     last = pieces.pop()
@@ -2250,7 +2342,21 @@ def run(scn, ch, log=False):
                         cls = f"{why}:compress_trailer"
                     else:
                         cls = f"{why}:other"
-                if cls is not None:
+                over = None
+                if cls is None and done_r and done_r[-1]["framing"] == "length" and 0 <= kf < len(c["handled"]) \
+                        and c["handled"][kf]["ex"] is not None and c["handled"][kf].get("overrun"):
+                    over = c["handled"][kf]
+                if over is not None:
+                    # stray bytes behind a complete response whose producer yielded more than the length it announced
+                    ob_ = exchanges[over["ex"]]["resp"]["body"]
+                    violate("wire_well_formed", f"bytes_after_declared_content_length:{ob_['kind']}",
+                            f"connection {n}: the response to exchange {over['ex']} ({over['method']} -> {done_r[-1]['status']}, handler "
+                            f"body={ob_['kind']}) announces Content-Length {done_r[-1].get('declared', len(done_r[-1]['body']))}; its producer "
+                            f"yielded pieces {[len(x) for x in producer_pieces(ob_, resp_body_bytes(ob_))]} (eof_data={ob_.get('eof_data')}), "
+                            f"{sum(ob_['surplus'])} bytes more than announced, and bytes follow the complete message on the wire, where "
+                            f"the client reads them as the start of the next response ({rest}): "
+                            f"{bytes(s_out.get(n, b''))[done_r[-1]['end']:done_r[-1]['end'] + 60]!r}")
+                elif cls is not None:
                     poisoned(hrec["ex"])
                     violate("wire_well_formed", f"body_bytes_after_bodyless_response:{cls}",
                             f"connection {n}: the response to exchange {hrec['ex']} ({hrec['method']} -> {done_r[-1]['status']}, handler "
@@ -2261,6 +2367,17 @@ def run(scn, ch, log=False):
                     violate("wire_well_formed", "server_output_malformed",
                             f"connection {n}: server output is not a sequence of well-formed responses: {rest}; "
                             f"tail {bytes(s_out.get(n, b''))[-80:]!r}")
+            elif sum(1 for r in finals if r["complete"]) > len(c["handled"]) and not server_errors \
+                    and all(r["ex"] is not None and r["ex"] < poison["from"] for r in c["handled"]):
+                # every request that reached a handler (or the expect handler) on this connection was answered once,
+                # and the server wrote more final responses than that
+                fc_ = [r for r in finals if r["complete"]]
+                violate("wire_well_formed", "more_responses_than_requests",
+                        f"connection {n}: {len(c['handled'])} request(s) were handled (exchanges {[r['ex'] for r in c['handled']]}) but the "
+                        f"server output holds {len(fc_)} complete final responses (status {[r['status'] for r in fc_]}); the "
+                        f"extra one starts {bytes(s_out.get(n, b''))[fc_[len(c['handled'])]['start']:fc_[len(c['handled'])]['start'] + 60]!r}"
+                        + ("; a handler on this connection yielded more body bytes than the Content-Length it announced"
+                           if any(r.get("overrun") for r in c["handled"]) else ""))
             c["finals"] = finals
 
         for i_ in sorted(head_body_dropped):
@@ -2549,6 +2666,11 @@ def run(scn, ch, log=False):
             probes["early_answer_rest_in_2+_reads"] = multi
             probes["early_answer_then_next_on_same_conn"] = sum(
                 1 for r in early_recs if any(q["conn"] == r["conn"] and q["step"] > r["step"] for q in seen))
+        n_over = sum(1 for r in seen if r.get("overrun"))
+        if n_over:
+            probes["overrun_handled"] = n_over
+            probes["overrun_then_next_on_same_conn"] = sum(
+                1 for r in seen if r.get("overrun") and any(q["conn"] == r["conn"] and q["step"] > r["step"] for q in seen))
         probes["rawio_short_reads"] = state["short_reads"]
         probes["range_judged"] = state.get("range_judged", 0)
         probes["range_206"] = state.get("range_206", 0)
@@ -2585,7 +2707,8 @@ def run(scn, ch, log=False):
                      + ("+hdrmix" if scn.get("session_headers") else "")
                      + ("+rawio" if any(ex[sd_]["body"]["kind"] == "rawio" for ex in exchanges for sd_ in ("req", "resp")) else "")
                      + ("+range" if any(file_range_expect(ex["req"], ex["resp"]) is not None for ex in exchanges) else "")
-                     + ("+early" if any(early_mode(ex["req"]) is not None for ex in exchanges) else ""),
+                     + ("+early" if any(early_mode(ex["req"]) is not None for ex in exchanges) else "")
+                     + ("+overrun" if any(ex["resp"]["body"].get("surplus") for ex in exchanges) else ""),
         }
         if log:
             res["event_log"] = loop.event_log
